@@ -177,7 +177,7 @@ def specHandshake (cfg : HCfg) (t ip : Nat) (k : HKind) (s : HLedger) : HLedger 
     | some false =>
       ({ s with rl := if k.anon then (rlStep cfg.rl cfg.U t (.allow ip) s.rl).1 else s.rl,
                 bf := (ledgersStep cfg.bf (t, .fail ip) s.bf).1 }, .fail)
-    | none => (s, .chal)
+    | none => (s, k.neutralResp)
 
 def hSpecStep (cfg : HCfg) (t : Nat) (e : HEv) (s : HLedger) : HLedger × Option HResp :=
   match e with
